@@ -17,7 +17,7 @@ from labtech.types import ResultMeta, TaskResult
 
 from . import universe as U
 
-PLACEMENTS = ('direct', 'list', 'tid', 'dil', 'mixed', 'pair', 'nonefirst')
+PLACEMENTS = ('direct', 'list', 'tid', 'dil', 'mixed', 'pair', 'nonefirst', 'twice')
 STR_SALT = bool(os.environ.get('VERIF_STR_SALT'))
 
 
@@ -70,11 +70,13 @@ def all_subsets(items: Sequence) -> Iterator[tuple]:
         yield from itertools.combinations(items, r)
 
 
-def place_deps(place: str, deps: list) -> dict:
+def place_deps(place: str, deps: list, copies: Optional[list] = None) -> dict:
     """Return the constructor kwargs that put `deps` into a task's parameters
     according to the placement scheme."""
     if not deps:
         return {}
+    if place == 'twice':   # every dependency is held twice: as two distinct-but-equal instances
+        return {'coll': [list(deps), {'again': list(copies if copies is not None else deps)}]}
     if place == 'direct':
         kw = {}
         for i, d in enumerate(deps[:4]):
@@ -117,7 +119,8 @@ class Built:
         else:
             deps = [self.canon[j] for j in spec.deps[i]]
         cls = U.TYPES[spec.types[i]]
-        kw = place_deps(spec.place[i], deps)
+        copies = [self._build(j, fresh=True) for j in spec.deps[i]] if spec.place[i] == 'twice' else None
+        kw = place_deps(spec.place[i], deps, copies)
         if STR_SALT and 'd3' not in kw:
             # a string parameter makes hash(task) - and with it every set/dict order inside
             # labtech - depend on PYTHONHASHSEED (hash-seed slices run in fresh interpreters)
